@@ -15,10 +15,10 @@ EXPLANATION = (
     "arms (exit 0xEE) and the debugger's ExitProgram. R4: the word is fetched at the old PC, the PC is incremented by exactly "
     "1, then the word is executed; one such site. R5: GETC and IN read exactly one byte on every path; the stdin reader's "
     "buffer is one byte; end of input exits with status 1. R6 (BITS): OUT/PUTS print bits 7:0, PUTSP prints bits 7:0 then "
-    "15:8 of each word, PUTN prints R0 reinterpreted as i16."
+    "15:8 of each word, PUTN prints R0 reinterpreted as i16. R7 (DOM): in PUTS/PUTSP every print is dominated by a zero test on the printed "
+    "character whose zero side prints nothing more, and the only other exit of the printing loop is the exhausted address range."
 )
-NOT_DECIDED = ("the executed sequence and exact stdout for all images and inputs (UTF-8 re-encoding of bytes >= 0x80 is value-level); "
-               "the termination tests of PUTS/PUTSP")
+NOT_DECIDED = ("the executed sequence and exact stdout for all images and inputs (UTF-8 re-encoding of bytes >= 0x80 is value-level)")
 
 RT = "lace::runtime::"
 EXEC = RT + "RunState::execute"
@@ -356,6 +356,70 @@ def run(ctx):
     if not ok:
         ctx.violation("putn", sp_file_line(tr.term(tg[0x26]).get("sp")), "PUTN does not print R0 reinterpreted as a signed 16-bit decimal")
     ctx.finish_rule()
+
+    # ------------------------------------------------------------------ R7
+    ctx.rule("C03.R7", "PUTS/PUTSP stop at the first zero byte they would print, and only there (or when the address range is exhausted)", floor=2)
+    def strip(e):
+        while e[0] == "cast":
+            e = e[3]
+        return e
+    for vec, nm in ((0x22, "PUTS"), (0x24, "PUTSP")):
+        reg = kit.dominated_region(tr, tg[vec])
+        prints = [b for b in sorted(reg) if tr.term(b)["k"] == "call" and (callee_of(tr.term(b)) or "").endswith("output::Output::print")]
+        ctx.need(prints, "print call in the %s arm" % nm)
+        can = set()
+        for pb in prints:
+            can |= (_reaching(tr, pb) & reg)
+        ctx.instance(1)
+        vals = [(strip(tr.expr(tr.term(pb)["args"][1], 10, stop={"named"})), strip(tr.expr(tr.term(pb)["args"][1], 14))) for pb in prints]
+        def zero_test(b):
+            """(zero successor, nonzero successor) when block b branches on `printed value == 0`"""
+            t = tr.term(b)
+            if t["k"] != "switch":
+                return None
+            tgs = {v: x for v, x in t["targets"]}
+            for depth, stop, which in ((10, {"named"}, 0), (14, None, 1)):
+                c = tr.expr(t["a"], depth, stop=stop) if stop else tr.expr(t["a"], depth)
+                if c[0] == "bin" and c[1] in ("Eq", "Ne") and ("const", 0) in (c[2], c[3]):
+                    other = strip(c[3] if c[2] == ("const", 0) else c[2])
+                    if any(other == v[which] for v in vals):
+                        t_true = t["otherwise"] if 0 in tgs else tgs.get(1)
+                        t_false = tgs.get(0, t["otherwise"])
+                        return (t_true, t_false) if c[1] == "Eq" else (t_false, t_true)
+                if any(strip(c) == v[which] for v in vals) and 0 in tgs:     # `match chr { 0 => .., _ => .. }`
+                    return (tgs[0], t["otherwise"])
+            return None
+        def exhausted(b):
+            """b branches on the Option returned by an Iterator::next call (the address range ran out)"""
+            t = tr.term(b)
+            if t["k"] != "switch":
+                return False
+            c = tr.expr(t["a"], 6)
+            return c[0] == "discr" and c[1][0] == "call" and "Iterator" in str(c[1][1]) and str(c[1][1]).endswith("::next")
+        zts = {b: zero_test(b) for b in sorted(can) if zero_test(b)}
+        bad = []
+        # (a) each print is only reachable through the non-zero side of a zero test on its own value, whose zero side prints nothing more
+        for pb in prints:
+            doms = [b for b in zts if tr.dominates(b, pb)]
+            good = [b for b in doms if zts[b][0] not in can and pb in tr.reachable(zts[b][1], avoid={b})]
+            if not good:
+                bad.append("the character printed at %s is not tested against zero first, or the zero case goes on printing" % sp_file_line(tr.term(pb).get("sp")))
+        # (b) every other way out of the printing loop is the exhausted address range
+        sm = tr.succ_map()
+        for b in sorted(can):
+            outs = [x for x in sm[b] if x not in can and x in reg and tr.term(b)["k"] == "switch"]
+            if not outs:
+                continue
+            if b in zts and set(outs) == {zts[b][0]}:
+                continue
+            if exhausted(b):
+                continue
+            bad.append("the printing loop is also left at %s on a condition that is neither the zero byte nor the end of the address range" % sp_file_line(tr.term(b).get("sp")))
+        ctx.oblig(not bad, {nm: "zero-byte tests at %s" % sorted(sp_file_line(tr.term(b).get("sp")) for b in zts)}, "zero test dominates each print; zero side prints nothing more; no other loop exit")
+        if bad:
+            ctx.violation("string-termination|%s" % nm, sp_file_line(tr.term(tg[vec]).get("sp")), "%s: %s" % (nm, "; ".join(sorted(set(bad)))))
+    ctx.finish_rule()
+
 
 
 def _reaching(fn, target, avoid=()):
